@@ -182,3 +182,268 @@ Proof.
   intros H Hle. pose proof (next_bytes_adv _ _ _ _ _ E Hle) as Ha.
   destruct e0; inversion H; subst; exact Ha.
 Qed.
+
+(** ** NextBool *)
+Lemma next_bool_adv s b i e s' :
+  next_bool s = (b, i, e, s') -> e = false ->
+  buf s' = buf s /\ off s' = S (off s) /\ (off s' <= length (buf s))%nat.
+Proof.
+  unfold next_bool. destruct (next_byte s) as [[x e0] s1] eqn:E. intros H He.
+  assert (e0 = e /\ s1 = s') as [-> ->]
+    by (destruct (x =? 0); [|destruct (x =? 1)]; inversion H; auto).
+  subst e. exact (next_byte_adv _ _ _ E).
+Qed.
+
+(** * Progress, bounds and totality of the decoder (any source, any bytes) *)
+Definition oksrc (s : source) : Prop := (off s <= length (buf s))%nat.
+Definition wk (s s' : source) : Prop := buf s' = buf s /\ (off s <= off s' <= length (buf s))%nat.
+Definition adv (s s' : source) : Prop := buf s' = buf s /\ (off s < off s' <= length (buf s))%nat.
+
+Lemma wk_refl s : oksrc s -> wk s s.
+Proof. unfold wk, oksrc; intros; split; [reflexivity|lia]. Qed.
+Lemma wk_trans a b c : wk a b -> wk b c -> wk a c.
+Proof. unfold wk; intros [H1 H2] [H3 H4]; rewrite H1 in *; split; [congruence|lia]. Qed.
+Lemma adv_wk_trans a b c : adv a b -> wk b c -> adv a c.
+Proof. unfold adv, wk; intros [H1 H2] [H3 H4]; rewrite H1 in *; split; [congruence|lia]. Qed.
+Lemma wk_oksrc a b : wk a b -> oksrc b.
+Proof. unfold wk, oksrc; intros [H1 H2]; rewrite H1; lia. Qed.
+Lemma adv_oksrc a b : adv a b -> oksrc b.
+Proof. unfold adv, oksrc; intros [H1 H2]; rewrite H1; lia. Qed.
+Lemma adv_remaining a b : adv a b -> (remaining b < remaining a)%nat.
+Proof. unfold adv, remaining; intros [H1 H2]; rewrite H1; lia. Qed.
+Lemma wk_remaining a b : wk a b -> (remaining b <= remaining a)%nat.
+Proof. unfold wk, remaining; intros [H1 H2]; rewrite H1; lia. Qed.
+
+Lemma next_byte_adv' s x s' : next_byte s = (x, false, s') -> adv s s'.
+Proof. intro H; destruct (next_byte_adv _ _ _ H) as [H1 [H2 H3]]; split; [exact H1|lia]. Qed.
+
+Lemma dec_sized_wk mk s1 v s' : oksrc s1 -> dec_sized mk s1 = DOk v s' -> wk s1 s'.
+Proof.
+  intros Hok. unfold dec_sized, next_uint32.
+  destruct (next_uint UINT32_SIZE s1) as [[size e] s2] eqn:E1. destruct e; [discriminate|].
+  destruct (next_bytes s2 size) as [[b e] s3] eqn:E2. destruct e; [discriminate|].
+  intro H; inversion H; subst.
+  pose proof (next_uint_adv _ _ _ _ _ E1 Hok) as W1.
+  assert (Hok2 : oksrc s2) by (apply (wk_oksrc s1); exact W1).
+  pose proof (next_bytes_adv _ _ _ _ _ E2 Hok2) as W2.
+  exact (wk_trans _ _ _ W1 W2).
+Qed.
+
+Lemma dec_sized_nofuel mk s1 : dec_sized mk s1 <> DFuel.
+Proof.
+  unfold dec_sized. destruct (next_uint32 s1) as [[size e] s2]. destruct e; [discriminate|].
+  destruct (next_bytes s2 size) as [[b e] s3]. destruct e; discriminate.
+Qed.
+
+Lemma dec_fixed_wk w mk s1 v s' : oksrc s1 -> dec_fixed (next_fixed w) mk s1 = DOk v s' -> wk s1 s'.
+Proof.
+  intros Hok. unfold dec_fixed. destruct (next_fixed w s1) as [[x e] s2] eqn:E1.
+  destruct e; [discriminate|]. intro H; inversion H; subst.
+  exact (next_fixed_adv _ _ _ _ _ E1 Hok).
+Qed.
+
+Lemma dec_fixed_nofuel rd mk s1 : dec_fixed rd mk s1 <> DFuel.
+Proof. unfold dec_fixed. destruct (rd s1) as [[x e] s2]. destruct e; discriminate. Qed.
+
+Lemma dec_bool_wk s1 v s' : oksrc s1 -> dec_bool s1 = DOk v s' -> wk s1 s'.
+Proof.
+  intros Hok. unfold dec_bool. destruct (next_bool s1) as [[[b i] e] s2] eqn:E1.
+  destruct e; [discriminate|]. destruct i; [discriminate|]. intro H; inversion H; subst.
+  destruct (next_bool_adv _ _ _ _ _ E1 eq_refl) as [H1 [H2 H3]]. split; [exact H1|lia].
+Qed.
+
+Lemma dec_bool_nofuel s1 : dec_bool s1 <> DFuel.
+Proof.
+  unfold dec_bool. destruct (next_bool s1) as [[[b i] e] s2]. destruct e; [discriminate|]. destruct i; discriminate.
+Qed.
+
+(** Case analysis of the switch. *)
+Lemma decode_body_inv rl s r :
+  decode_body rl s = r ->
+  (exists x s1, next_byte s = (x, true, s1) /\ r = DErr ErrFormat) \/
+  (exists ty s1, next_byte s = (ty, false, s1) /\
+     ((ty = ByteArrayType /\ r = dec_sized XBytes s1) \/
+      (ty = StringType /\ r = dec_sized XString s1) \/
+      (ty = AddressType /\ r = dec_fixed next_address XAddress s1) \/
+      (ty = BooleanType /\ r = dec_bool s1) \/
+      (ty = IntType /\ r = dec_fixed next_i128 (fun x => XInt (i128_to_big x)) s1) \/
+      (ty = H256Type /\ r = dec_fixed next_hash XH256 s1) \/
+      (ty = ListType /\ r = dec_list rl s1) \/
+      r = DErr ErrNotSupported)).
+Proof.
+  unfold decode_body. destruct (next_byte s) as [[ty e] s1]. destruct e.
+  - intro H; left; eauto.
+  - intro H; right; exists ty, s1; split; [reflexivity|].
+    destruct (N.eqb_spec ty ByteArrayType); [auto|].
+    destruct (N.eqb_spec ty StringType); [auto|].
+    destruct (N.eqb_spec ty AddressType); [auto 6|].
+    destruct (N.eqb_spec ty BooleanType); [auto 6|].
+    destruct (N.eqb_spec ty IntType); [auto 8|].
+    destruct (N.eqb_spec ty H256Type); [auto 8|].
+    destruct (N.eqb_spec ty ListType); [auto 10|].
+    auto 10.
+Qed.
+
+Definition rl_wk (rl : N -> source -> dres (list value)) : Prop :=
+  forall n s2 l s3, oksrc s2 -> rl n s2 = DOk l s3 -> wk s2 s3.
+
+Lemma dec_list_wk rl s1 v s' : rl_wk rl -> oksrc s1 -> dec_list rl s1 = DOk v s' -> wk s1 s'.
+Proof.
+  intros Hrl Hok. unfold dec_list, next_uint32.
+  destruct (next_uint UINT32_SIZE s1) as [[size e] s2] eqn:E1. destruct e; [discriminate|].
+  pose proof (next_uint_adv _ _ _ _ _ E1 Hok) as W1.
+  destruct (rl size s2) as [l s3| |] eqn:E2; try discriminate.
+  intro H; inversion H; subst.
+  exact (wk_trans _ _ _ W1 (Hrl _ _ _ _ (wk_oksrc _ _ W1) E2)).
+Qed.
+
+Lemma decode_body_adv rl s v s' : rl_wk rl -> decode_body rl s = DOk v s' -> adv s s'.
+Proof.
+  intros Hrl H. apply decode_body_inv in H.
+  destruct H as [[x [s1 [_ H]]]|[ty [s1 [Hnb H]]]]; [discriminate|].
+  pose proof (next_byte_adv' _ _ _ Hnb) as A. pose proof (adv_oksrc _ _ A) as Hok.
+  apply (adv_wk_trans _ s1); [exact A|].
+  destruct H as [[_ H]|[[_ H]|[[_ H]|[[_ H]|[[_ H]|[[_ H]|[[_ H]|H]]]]]]]; try discriminate; symmetry in H.
+  - exact (dec_sized_wk _ _ _ _ Hok H).
+  - exact (dec_sized_wk _ _ _ _ Hok H).
+  - exact (dec_fixed_wk _ _ _ _ _ Hok H).
+  - exact (dec_bool_wk _ _ _ Hok H).
+  - exact (dec_fixed_wk _ _ _ _ _ Hok H).
+  - exact (dec_fixed_wk _ _ _ _ _ Hok H).
+  - exact (dec_list_wk _ _ _ _ Hrl Hok H).
+Qed.
+
+(** The only way for the body to run out of fuel is through the element decoder, which is only
+    called on a strictly later position. *)
+Lemma decode_body_fuel rl s :
+  decode_body rl s = DFuel -> exists n s2, rl n s2 = DFuel /\ adv s s2.
+Proof.
+  intro H. apply decode_body_inv in H.
+  destruct H as [[x [s1 [_ H]]]|[ty [s1 [Hnb H]]]]; [discriminate|].
+  pose proof (next_byte_adv' _ _ _ Hnb) as A. pose proof (adv_oksrc _ _ A) as Hok.
+  destruct H as [[_ H]|[[_ H]|[[_ H]|[[_ H]|[[_ H]|[[_ H]|[[_ H]|H]]]]]]]; try discriminate; symmetry in H.
+  - destruct (dec_sized_nofuel _ _ H).
+  - destruct (dec_sized_nofuel _ _ H).
+  - destruct (dec_fixed_nofuel _ _ _ H).
+  - destruct (dec_bool_nofuel _ H).
+  - destruct (dec_fixed_nofuel _ _ _ H).
+  - destruct (dec_fixed_nofuel _ _ _ H).
+  - revert H. unfold dec_list, next_uint32.
+    destruct (next_uint UINT32_SIZE s1) as [[size e] s2] eqn:E1. destruct e; [discriminate|].
+    pose proof (next_uint_adv _ _ _ _ _ E1 Hok) as W1.
+    destruct (rl size s2) as [l s3| |] eqn:E2; try discriminate.
+    intros _. exists size, s2. split; [exact E2|exact (adv_wk_trans _ _ _ A W1)].
+Qed.
+
+Definition dv_adv (dv : source -> dres value) : Prop := forall s v s', dv s = DOk v s' -> adv s s'.
+
+Lemma decode_loop_wk dv k : dv_adv dv -> forall n s l s', oksrc s -> decode_loop dv k n s = DOk l s' -> wk s s'.
+Proof.
+  intro Hdv. induction k as [|k IH]; intros n s l s' Hok; cbn [decode_loop].
+  - destruct (n =? 0); [|discriminate]. intro H; inversion H; subst. apply wk_refl; exact Hok.
+  - destruct (n =? 0); [intro H; inversion H; subst; apply wk_refl; exact Hok|].
+    destruct (dv s) as [v s1| |] eqn:E; try discriminate.
+    pose proof (Hdv _ _ _ E) as A.
+    destruct (decode_loop dv k (n - 1) s1) as [l1 s2| |] eqn:E2; try discriminate.
+    intro H; inversion H; subst.
+    pose proof (IH _ _ _ _ (adv_oksrc _ _ A) E2) as W.
+    destruct A as [A1 A2]. destruct W as [W1 W2]. rewrite A1 in *. split; [congruence|lia].
+Qed.
+
+Lemma decode_fuel_S f s : decode_fuel (S f) s = decode_body (decode_loop (decode_fuel f) f) s.
+Proof. reflexivity. Qed.
+
+Lemma decode_fuel_adv f : dv_adv (decode_fuel f).
+Proof.
+  induction f as [|f IH]; intros s v s'; [discriminate|]. rewrite decode_fuel_S.
+  apply decode_body_adv. intros n s2 l s3 Hok. apply decode_loop_wk; assumption.
+Qed.
+
+Lemma decode_loop_nofuel dv k :
+  dv_adv dv -> forall n s, (remaining s < k)%nat ->
+  (forall s3, wk s s3 -> dv s3 <> DFuel) -> oksrc s -> decode_loop dv k n s <> DFuel.
+Proof.
+  intro Hdv. induction k as [|k IH]; intros n s Hr Hnf Hok; [lia|].
+  cbn [decode_loop]. destruct (n =? 0); [discriminate|].
+  destruct (dv s) as [v s1| |] eqn:E.
+  - pose proof (Hdv _ _ _ E) as A.
+    assert (N1 : decode_loop dv k (n - 1) s1 <> DFuel).
+    { apply IH.
+      - pose proof (adv_remaining _ _ A); lia.
+      - intros s3 W. apply Hnf. destruct A as [A1 A2]; destruct W as [W1 W2]. rewrite A1 in *.
+        split; [congruence|lia].
+      - exact (adv_oksrc _ _ A). }
+    destruct (decode_loop dv k (n - 1) s1); [discriminate|discriminate|contradiction].
+  - discriminate.
+  - exfalso. apply (Hnf s); [apply wk_refl; exact Hok|exact E].
+Qed.
+
+Lemma decode_fuel_total f : forall s, (remaining s <= f)%nat -> decode_fuel (S f) s <> DFuel.
+Proof.
+  induction f as [|f IH]; intros s Hr H; rewrite decode_fuel_S in H;
+    apply decode_body_fuel in H; destruct H as [n [s2 [H A]]]; pose proof (adv_remaining _ _ A) as Hlt.
+  - lia.
+  - revert H. apply decode_loop_nofuel.
+    + apply decode_fuel_adv.
+    + lia.
+    + intros s3 W. apply IH. pose proof (wk_remaining _ _ W). lia.
+    + exact (adv_oksrc _ _ A).
+Qed.
+
+Lemma decode_value_total s : decode_value s <> DFuel.
+Proof. apply decode_fuel_total. lia. Qed.
+
+Lemma decode_value_adv s v s' : decode_value s = DOk v s' -> adv s s'.
+Proof. apply decode_fuel_adv. Qed.
+
+(** * Monotonicity in the fuel: more fuel never changes a result that is not [DFuel] *)
+Definition le_res {A : Type} (r r' : dres A) : Prop := r = DFuel \/ r = r'.
+
+Lemma decode_loop_mono dv dv' k :
+  (forall s, le_res (dv s) (dv' s)) ->
+  forall k' n s, (k <= k')%nat -> le_res (decode_loop dv k n s) (decode_loop dv' k' n s).
+Proof.
+  intro Hdv. induction k as [|k IH]; intros k' n s Hk.
+  - cbn [decode_loop]. destruct k'; cbn [decode_loop]; destruct (n =? 0); try (right; reflexivity); left; reflexivity.
+  - destruct k' as [|k']; [lia|]. cbn [decode_loop]. destruct (n =? 0); [right; reflexivity|].
+    destruct (Hdv s) as [E|E]; rewrite E; [left; reflexivity|].
+    destruct (dv' s) as [v s1| |]; try (right; reflexivity).
+    destruct (IH k' (n - 1) s1 ltac:(lia)) as [E2|E2]; rewrite E2; [left; reflexivity|right; reflexivity].
+Qed.
+
+Lemma dec_list_mono rl rl' s1 :
+  (forall n s, le_res (rl n s) (rl' n s)) -> le_res (dec_list rl s1) (dec_list rl' s1).
+Proof.
+  intro H. unfold dec_list. destruct (next_uint32 s1) as [[size e] s2]. destruct e; [right; reflexivity|].
+  destruct (H size s2) as [E|E]; rewrite E; [left; reflexivity|right; reflexivity].
+Qed.
+
+Lemma decode_body_mono rl rl' s :
+  (forall n s, le_res (rl n s) (rl' n s)) -> le_res (decode_body rl s) (decode_body rl' s).
+Proof.
+  intro H. unfold decode_body. destruct (next_byte s) as [[ty e] s1]. destruct e; [right; reflexivity|].
+  repeat (match goal with |- context [if ?c then _ else _] => destruct c end; [right; reflexivity|]).
+  destruct (ty =? ListType); [apply dec_list_mono; exact H|right; reflexivity].
+Qed.
+
+Lemma decode_fuel_mono f : forall f' s, (f <= f')%nat -> le_res (decode_fuel f s) (decode_fuel f' s).
+Proof.
+  induction f as [|f IH]; intros f' s Hf; [left; reflexivity|].
+  destruct f' as [|f']; [lia|]. rewrite !decode_fuel_S.
+  apply decode_body_mono. intros n s2. apply decode_loop_mono; [|lia].
+  intro s3. apply IH. lia.
+Qed.
+
+Lemma decode_fuel_indep f s : (remaining s < f)%nat -> decode_fuel f s = decode_value s.
+Proof.
+  intro H. destruct (decode_fuel_mono (S (remaining s)) f s ltac:(lia)) as [E|E].
+  - destruct (decode_value_total s E).
+  - symmetry; exact E.
+Qed.
+
+Lemma decode_fuel_complete f s r : decode_fuel f s = r -> r <> DFuel -> decode_value s = r.
+Proof.
+  intros H Hr.
+  destruct (decode_fuel_mono f (f + S (remaining s)) s ltac:(lia)) as [E|E]; [congruence|].
+  rewrite <- H, E. symmetry. apply decode_fuel_indep. lia.
+Qed.
